@@ -52,7 +52,7 @@ def run(chk, tier):
     for i in range(n):
         # every second program also allocates through several values at once, collect forms and private representations
         g = progen.ProgGen(((chk.seed + 29) % 1000003) * 100003 + i,
-                           features=HEAVY + (["tup", "coll", "filt", "adt", "kwd", "strop", "where", "pfor"] if i % 2 else []), size=16)
+                           features=HEAVY + (["tup", "coll", "filt", "adt", "kwd", "strop", "where", "pfor", "bits"] if i % 2 else []), size=16)
         progs.append(g.program("a%d" % i))
     fam = progcheck.Family(chk, progs, "alloc", workers=vlib.NCPU, timeout=1500)
     scheds = schedules(tier)
